@@ -90,11 +90,17 @@ HELPERS = [
     (23, 'decoder-incomplete', 'rules.C14', 'r15', 'C14.R15',
      ['ebusd::EnhancedDevice::handleEnhancedBufferedData'],
      'with an enhanced adapter the caller comes back at once when the decoder announces more data'),
+    (24, 'decoder-deferral', 'rules.C14', 'r16', 'C14.R16',
+     ['ebusd::EnhancedDevice::handleEnhancedBufferedData'],
+     'with an enhanced adapter a sequence deferred behind a symbol must yield a symbol, or the telegram in progress is given up'),
+    (25, 'replace-same-id', 'rules.C08', 'r10', 'C08.R10',
+     ['ebusd::MessageMap::add'],
+     'definitions loaded in replace mode must not remove other definitions that merely share the hashed key'),
 ]
 
 
 # for which further properties a helper matters (besides those whose own module runs it)
-RELEVANT = {'layout': ['C06', 'C07', 'C13', 'C15'], 'crc-table': ['C15'], 'address-classes': ['C02', 'C09'], 'errno': ['C19'], 'parseint-prefix': [], 'overflow-threshold': [], 'transport-accounting': ['C01', 'C02'], 'clock': [], 'recv-deadline': ['C14'], 'tolower': ['C16', 'C18'], 'multiline-field': [], 'file-state': ['C19', 'C16'], 'serial-raw': ['C02', 'C14'], 'arbitration-disarm': ['C03'], 'enhanced-decoder': [], 'minus-sign': [], 'type-table': ['C06', 'C07'], 'entry-reset': ['C02', 'C15'], 'arbitration-pair': ['C03', 'C04', 'C20'], 'arbitration-counter': ['C03', 'C04', 'C20'], 'transport-close': ['C14', 'C01'], 'chain-prefix': ['C09'], 'decoder-incomplete': ['C01', 'C02', 'C03', 'C20']}
+RELEVANT = {'layout': ['C06', 'C07', 'C13', 'C15'], 'crc-table': ['C15'], 'address-classes': ['C02', 'C09'], 'errno': ['C19'], 'parseint-prefix': [], 'overflow-threshold': [], 'transport-accounting': ['C01', 'C02'], 'clock': [], 'recv-deadline': ['C14'], 'tolower': ['C16', 'C18'], 'multiline-field': [], 'file-state': ['C19', 'C16'], 'serial-raw': ['C02', 'C14'], 'arbitration-disarm': ['C03'], 'enhanced-decoder': [], 'minus-sign': [], 'type-table': ['C06', 'C07'], 'entry-reset': ['C02', 'C15'], 'arbitration-pair': ['C03', 'C04', 'C20'], 'arbitration-counter': ['C03', 'C04', 'C20'], 'transport-close': ['C14', 'C01'], 'chain-prefix': ['C09'], 'decoder-incomplete': ['C01', 'C02', 'C03', 'C20'], 'decoder-deferral': ['C01', 'C02', 'C03', 'C20'], 'replace-same-id': ['C19']}
 
 
 def share(ctx):
